@@ -19,7 +19,7 @@ META = dict(
           "body); harness/threads.cpp; clang 14 ThreadSanitizer. Schedules are sampled, not enumerated."),
     design_ref="DESIGN.md §6 C13")
 
-PRELUDE = "def shared(x) { var t = x * 2; return t + 1 }; def fib(n) { if (n < 2) { return n }; return fib(n - 1) + fib(n - 2) }; global G = 40"
+PRELUDE = "def shared_ov(int x) { x + 1000 }; def shared(x) { var t = x * 2; return t + 1 }; def fib(n) { if (n < 2) { return n }; return fib(n - 1) + fib(n - 2) }; global G = 40"
 
 
 def fib(n):
@@ -30,10 +30,23 @@ def gen_workload(rng, usefile):
     T = rng.choice([2, 2, 3, 4, 4, 8, 16])
     threads, expected, final = [], [], {}
     nuse = 0
+    ntag = [0]
     for t in range(T):
         ops, exp = [], []
         for k in range(rng.range(4, 14)):
-            c = rng.below(12)
+            c = rng.below(15)
+            if c == 12:
+                # one more overload of a name other threads are dispatching through right now (method-call syntax and operators go through the shared overload vector)
+                if ntag[0] < 64:                                   # every overload has its own parameter type: no conflict by construction
+                    ops.append("o:%d:%d" % (ntag[0], rng.range(1, 99)))
+                    ntag[0] += 1
+                continue
+            if c >= 13:
+                a = rng.range(0, 9)
+                src = "%d.shared_ov() + int((\"ab\" + \"cd\").size())" % a
+                ops.append("e:" + src.encode().hex())
+                exp.append(str(a + 1000 + 4))
+                continue
             if c <= 2:
                 a = rng.range(0, 9)
                 src = "var x%d = %d; var y%d = shared(x%d); x%d = x%d + y%d; x%d" % (k, t * 100 + a, k, k, k, k, k, k)   # the same local names in every thread (a thread's top-level locals persist between its evals)
